@@ -93,7 +93,7 @@ def run(ctx, model_ok):
                    f'({cN(r["a"])}, {cN(r["b"])}, {vlib.cbytes(bytes.fromhex(r["text"]))}))')
     # exactly once, and the enclosing syscall shows the paths in lookup order: through the public API
     path_keys = [k for k in dc.call_keys(R) if R.uses_paths(k) and k != 'BSC_posix_spawn']
-    reqs, exps = [], []
+    reqs, exps, twins = [], [], []
     lookup = R.lookup_code
     for key in (rng.sample(path_keys, 12) if ctx.quick() else path_keys):
         for nl in (0, 1, 2, 3):
@@ -109,8 +109,19 @@ def run(ctx, model_ok):
             recs = [D.record(j + 1, ws, t, c | q) for j, (t, c, q, ws) in enumerate(evs)]
             reqs.append({'file': D.build_v2([(7, 1, b'p')], 0, recs).hex(), 'cfg': {'color': False}, 'calls': ['traces']})
             exps.append((key, paths, first))
+            # the same records under a coarse clock (several records per tick, as on real hardware): same texts
+            tick = rng.choice([2, 4, 1000])
+            recs2 = [D.record(1 + j // tick, ws, t, c | q) for j, (t, c, q, ws) in enumerate(evs)]
+            twins.append({'file': D.build_v2([(7, 1, b'p')], 0, recs2).hex(), 'cfg': {'color': False}, 'calls': ['traces']})
     out = vlib.run_impl('run_api.py', {'cases': reqs})['results']
-    ctx.evaluations += len(reqs)
+    tout = vlib.run_impl('run_api.py', {'cases': twins})['results']
+    ctx.evaluations += len(reqs) + len(twins)
+    for (key, paths, first), a, b in zip(exps, out, tout):
+        ta, tb = [it[4] for it in a[0]['items']], [it[4] for it in b[0]['items']]
+        if ta != tb or a[0]['err'] != b[0]['err']:
+            ctx.failing.append({'input': {'syscall': key, 'paths': [[v, t.hex()] for v, t in paths], 'clock': 'several records per tick'},
+                                'expected': ta, 'actual': b[0]['err'] or tb,
+                                'why': 'the reassembled paths change when records share a timestamp'})
     metas2 = []
     for (key, paths, first), calls in zip(exps, out):
         c = calls[0]
